@@ -1,0 +1,15 @@
+//go:build verif
+// +build verif
+
+package base
+
+// SimRandRead, when non-nil, fills b instead of crypto/rand (verification builds only).
+var SimRandRead func(b []byte)
+
+func simRandRead(b []byte) bool {
+	if f := SimRandRead; f != nil {
+		f(b)
+		return true
+	}
+	return false
+}
